@@ -165,7 +165,64 @@ Definition items_indented (c : wcfg) (its : list item) : bool :=
 Definition doc_indented (c : wcfg) (l : ldocl) : bool :=
   forallb (fun b => match b with LPara its => items_indented c its | _ => true end) l.
 
-(* a total preorder, as Vec::sort_by requires of its comparator *)
-Definition total_preorder {A} (cmp : A -> A -> comparison) : Prop :=
-  (forall a b, cmp a b = CompOpp (cmp b a)) /\
-  (forall a b c, cmp a b <> Gt -> cmp b c <> Gt -> cmp a c <> Gt).
+(* ---------------------------------------------------------------- the callers' closures *)
+(* a formatter that returns (never panics) *)
+Definition pure_fmt (g : str -> str -> str) : str -> str -> res str := fun k v => Ok (g k v).
+(* the comparators depend only on field names and values: on entries ... *)
+Definition ecmp_agrees (esort : option (tree -> tree -> comparison)) (ecmp : option pair_cmp) : Prop :=
+  match esort, ecmp with
+  | Some a, Some b => forall f g, a (field_tree f) (field_tree g) = b (field_pair f) (field_pair g)
+  | None, None => True
+  | _, _ => False
+  end.
+(* ... and on paragraphs *)
+Definition pcmp_agrees (psort : option (tree -> tree -> comparison)) (pcmp : option para_cmp) : Prop :=
+  match psort, pcmp with
+  | Some a, Some b => forall x y, a (lblock_tree (LPara x)) (lblock_tree (LPara y)) = b (flat_map item_pairs x) (flat_map item_pairs y)
+  | None, None => True
+  | _, _ => False
+  end.
+(* the answers of a comparator do not contradict each other (every total preorder, as Vec::sort_by
+   asks for, is like that; nothing more is needed here) *)
+Definition cmp_consistent {A} (cmp : A -> A -> comparison) : Prop := forall a b, cmp a b = Gt -> cmp b a <> Gt.
+Definition pair_cmp_consistent (ecmp : option pair_cmp) : Prop :=
+  match ecmp with Some e => cmp_consistent e | None => True end.
+Definition para_cmp_consistent (pcmp : option para_cmp) : Prop :=
+  match pcmp with Some p => cmp_consistent p | None => True end.
+
+(* ---------------------------------------------------------------- the property, without a formatter *)
+(* a parsed document as a live document *)
+Definition lblock_of (b : block) : lblock :=
+  match b with BBlank => LBlank | BComment c nl => LComment c nl | BPara f its => LPara (IField f :: its) end.
+Definition ldoc_of (d : doc) : ldocl := map lblock_of d.
+
+(* Deb822::wrap_and_sort(sort_paragraphs, |p| p.wrap_and_sort(indentation, immediate_empty_line,
+   max_line_length_one_liner, sort_entries, format_value)) *)
+Definition std_ws (V : variant) (c : wcfg) (psort esort : option (tree -> tree -> comparison))
+                  (fmt : option (str -> str -> res str)) (t : tree) : res tree :=
+  doc_ws V psort (Some (para_ws V (c_ind c) (c_iel c) (c_mll c) esort fmt)) t.
+
+(* C07 for the code variant V, for every well-formed document and all settings (indentation of at
+   least one column, either empty-first-line setting, any one-line limit, any comparators that
+   depend only on names and values), no formatter: the reformatting succeeds; its result is the
+   tree of the layout WrapSpec describes (every comment line in front of the same field or
+   paragraph, groups sorted stably); the object reports the sorted content; the printed result
+   parses strictly and re-reads to that content; continuation lines are indented by exactly the
+   requested width; exactly one blank line separates paragraphs; a second application changes
+   nothing. *)
+Definition C07_full (V : variant) : Prop :=
+  forall (c : wcfg) psort (pcmp : option para_cmp) esort (ecmp : option pair_cmp) (d : doc),
+    ind_ok c = true -> pcmp_agrees psort pcmp -> ecmp_agrees esort ecmp ->
+    pair_cmp_consistent ecmp -> para_cmp_consistent pcmp ->
+    (* the paragraph comparator does not depend on the order of fields, which is being rewritten *)
+    (forall a b, match pcmp with Some p => p (sort_opt ecmp a) (sort_opt ecmp b) = p a b | None => True end) ->
+    wf_doc d = true ->
+    let l1 := a_ws_doc pcmp (a_ws_items c ecmp None) (ldoc_of d) in
+    exists t1,
+      std_ws V c psort esort None (tree_of d) = Ok t1 /\
+      t1 = ltree_of l1 /\
+      doc_items t1 = map (sort_opt ecmp) (sort_opt pcmp (content d)) /\
+      (exists t', from_str (text t1) = Ok t' /\ doc_items t' = doc_items t1) /\
+      doc_indented c l1 = true /\
+      single_blanks SepStart l1 = true /\
+      std_ws V c psort esort None t1 = Ok t1.
